@@ -357,7 +357,9 @@ def explore_arrays(job: dict) -> dict:
         shape, stype = draw(st.sampled_from(sources))
         nmax = 2 if code == "2249" else 4 if code == "22C9" else 8
         n = draw(st.integers(1, nmax))
-        idxs = draw(st.lists(st.integers(0, 11), min_size=n, max_size=n, unique=True))
+        # mostly distinct indexes; in a quarter of the cases an index may repeat (the array regexes admit it: the elements are what they are)
+        idxs = draw(st.lists(st.integers(0, 11), min_size=n, max_size=n, unique=True)) if draw(st.integers(0, 3)) else \
+            draw(st.lists(st.integers(0, 3), min_size=n, max_size=n))
         if draw(st.booleans()):
             idxs = sorted(idxs)
         tails = [draw(st.from_regex(tail_rx, fullmatch=True, alphabet=HEX)) for _ in idxs]
